@@ -7,6 +7,7 @@ import (
 	"net"
 	"os"
 	"path/filepath"
+	"sort"
 	"strings"
 	"syscall"
 	"time"
@@ -130,6 +131,26 @@ func (f *flooder) writeAll(p []byte) bool {
 	return true
 }
 
+// sshdForms: one line of every message form the sshd processor turns into an event.
+var sshdForms = map[string]string{
+	"accepted-publickey":     "Accepted publickey for bob from 1.2.3.4 port 5 ssh2: RSA SHA256:YI+caZKJCNaXgsD0NvRZ2fLaEeF46cEVyadru/SL76o",
+	"accepted-certificate":   "Accepted publickey for bob from 1.2.3.4 port 5 ssh2: RSA-CERT SHA256:YI+caZKJCNaXgsD0NvRZ2fLaEeF46cEVyadru/SL76o ID k (serial 7) CA ED25519 SHA256:Pcs5TWfcOSKb7Rw/XyvHfUcaQzmw6HtLrjUoyXuzIj8",
+	"accepted-password":      "Accepted password for bob from 1.2.3.4 port 5 ssh2",
+	"invalid-user":           "Invalid user bob from 1.2.3.4 port 5",
+	"max-auth-attempts":      "maximum authentication attempts exceeded for bob from 1.2.3.4 port 5 ssh2",
+	"failed-password":        "Failed password for invalid user bob from 1.2.3.4 port 5 ssh2",
+	"shell-does-not-exist":   "User bob not allowed because shell /bin/zsh does not exist",
+	"shell-not-executable":   "User bob not allowed because shell /bin/zsh is not executable",
+	"bad-owner-or-modes":     "Authentication refused for bob: bad owner or modes for /home/bob/.ssh/authorized_keys",
+	"certificate-invalid":    "Certificate invalid: expired",
+	"root-login-refused":     "ROOT LOGIN REFUSED FROM 1.2.3.4 port 5",
+	"nasty-ptr":              `Nasty PTR record "evil.example.com" is set up for 1.2.3.4, ignoring`,
+	"reverse-mapping-failed": "reverse mapping checking getaddrinfo for evil.example.com [1.2.3.4] failed.",
+	"does-not-map-back":      "Address 1.2.3.4 maps to evil.example.com, but this does not map back to the address.",
+	"revoked-key":            "Authentication key RSA SHA256:YI+caZKJCNaXgsD0NvRZ2fLaEeF46cEVyadru/SL76o revoked by file /etc/ssh/revoked",
+	"revoked-key-error":      "Error checking authentication key RSA SHA256:YI+caZKJCNaXgsD0NvRZ2fLaEeF46cEVyadru/SL76o in revoked keys file /etc/ssh/revoked",
+}
+
 func runtimeCell(cause, load string) cellResult {
 	res := cellResult{Cell: cause + "/" + load}
 	d := &daemon{dir: newDir()}
@@ -141,7 +162,7 @@ func runtimeCell(cause, load string) cellResult {
 	mkfifo(d.auditPath)
 	var outReader *os.File
 	switch {
-	case cause == "output-dev-full":
+	case strings.HasPrefix(cause, "output-dev-full"):
 		d.outPath = "/dev/full"
 	case cause == "output-fifo-reader-left", load == "stalled-output":
 		mkfifo(d.outPath)
@@ -254,6 +275,11 @@ func runtimeCell(cause, load string) cellResult {
 		_, _ = sw.WriteString("0 Accepted password for alice from 1.2.3.4 port 5 ssh2\n4711 Accepted password for bob from 1.2.3.4 port 6 ssh2\n4712 Accepted password for carol from 1.2.3.4 port 7 ssh2\n")
 	case "output-dev-full", "output-fifo-reader-left":
 		_, _ = sw.WriteString("4711 Failed password for bob from 1.2.3.4 port 5 ssh2\n")
+	default:
+		// output-dev-full:<message form>: the write that fails is the event of that sshd message
+		if f := strings.TrimPrefix(cause, "output-dev-full:"); f != cause {
+			_, _ = sw.WriteString("4711 " + sshdForms[f] + "\n")
+		}
 	case "sigterm":
 		_ = d.cmd.Process.Signal(syscall.SIGTERM)
 		wantNonZero = false
@@ -571,6 +597,16 @@ func runC08(run *mc.Run) int {
 	for _, c := range causes {
 		judge(runtimeCell(c, "idle"))
 	}
+	// the failing write is the event of each of the other message forms in turn (each form has its own code path
+	// from the line to the write and back to the worker's return value)
+	var forms []string
+	for f := range sshdForms {
+		forms = append(forms, f)
+	}
+	sort.Strings(forms)
+	for _, f := range forms {
+		judge(runtimeCell("output-dev-full:"+f, "idle"))
+	}
 	for _, c := range causes {
 		if !run.Thorough() && (c == "output-dev-full" || c == "sigint" || c == "output-fifo-reader-left" || c == "invalid-login-with-another-login-buffered") {
 			continue
@@ -617,7 +653,7 @@ func runC08(run *mc.Run) int {
 		}
 	}
 	cov := mc.Coverage{Level: "fault_enumeration", Evaluations: len(results), Distinct: len(results) - inconclusive, Exhaustive: inconclusive == 0, Samples: samples,
-		Rule:  "fault enumeration on the built binary over real FIFOs: 10 run-time causes (sshd pipe EOF, sshd writer dying mid-line with a replacement writer connecting 300 ms later (idle and stalled-output only), audit pipe EOF, unparsable audit line, a LOGIN record whose pid is not a number, a login the correlator rejects while the next login is already buffered, output /dev/full, output FIFO whose reader left, SIGTERM, SIGINT) x load {idle, stalled-output: the events FIFO is never drained so the line buffer and the audit pipe stay full (write end accepts no byte for >=300 ms), saturated: a writer keeps the audit FIFO full - single-record events written at full speed, >=8 MB written and the pipe found full >=50 times - flow equilibrium with the 10000-slot line buffer full}, 2 cells with -metrics -healthz -audit-metrics -log-level debug (every optional worker running) and an HTTP client stalled mid-response (pipelined /metrics requests, never read) x {audit pipe EOF, SIGTERM}, SIGTERM before any writer has opened the pipes (also with the audit pipe's path removed / re-created meanwhile) and while the daemon still waits for its events output to appear, SIGINT / SIGTERM to a daemon that was started with that signal ignored (inherited disposition), 6 start-up causes (sshd/audit path is a regular file, a directory, missing); oracle: the process exits within 10 s of the cause, non-zero for failures. A cell whose set-up could not be reached is inconclusive (exit 0, exhaustive=false). distinct_nontrivial = conclusive cells",
+		Rule:  "fault enumeration on the built binary over real FIFOs: 10 run-time causes (sshd pipe EOF, sshd writer dying mid-line with a replacement writer connecting 300 ms later (idle and stalled-output only), audit pipe EOF, unparsable audit line, a LOGIN record whose pid is not a number, a login the correlator rejects while the next login is already buffered, output /dev/full (the failing write being the event of a failed password and of each of the 16 sshd message forms in turn), output FIFO whose reader left, SIGTERM, SIGINT) x load {idle, stalled-output: the events FIFO is never drained so the line buffer and the audit pipe stay full (write end accepts no byte for >=300 ms), saturated: a writer keeps the audit FIFO full - single-record events written at full speed, >=8 MB written and the pipe found full >=50 times - flow equilibrium with the 10000-slot line buffer full}, 2 cells with -metrics -healthz -audit-metrics -log-level debug (every optional worker running) and an HTTP client stalled mid-response (pipelined /metrics requests, never read) x {audit pipe EOF, SIGTERM}, SIGTERM before any writer has opened the pipes (also with the audit pipe's path removed / re-created meanwhile) and while the daemon still waits for its events output to appear, SIGINT / SIGTERM to a daemon that was started with that signal ignored (inherited disposition), 6 start-up causes (sshd/audit path is a regular file, a directory, missing); oracle: the process exits within 10 s of the cause, non-zero for failures. A cell whose set-up could not be reached is inconclusive (exit 0, exhaustive=false). distinct_nontrivial = conclusive cells",
 		Extra: map[string]any{"cells": results, "saturated_cells_reached": sat, "inconclusive": inconclusive, "bound_s": exitBound.Seconds()}}
 	cov.Assumptions = []string{"the OS scheduler is not controlled; 10 s is the property's bounded time against observed millisecond latencies",
 		"the decisive blocking state (line buffer full, consumer gone) is also decided deterministically by C13's bubble cells"}
